@@ -848,6 +848,14 @@ fn int_doc(v: i128) -> Option<Doc> {
 }
 
 fn same_value(a: &Doc, b: &Doc) -> bool {
+    let num = |d: &Doc| match d {
+        Doc::Int(u) => Some(*u as i128),
+        Doc::Neg(i) => Some(*i as i128),
+        _ => None,
+    };
+    if let (Some(x), Some(y)) = (num(a), num(b)) {
+        return x == y;
+    }
     match (a, b) {
         (Doc::Float(x), Doc::Float(y)) => x.to_bits() == y.to_bits() || (x.is_nan() && y.is_nan()),
         _ => a == b,
@@ -876,8 +884,28 @@ pub fn run_c05(tier: Tier) -> i32 {
             }
         }
     }
+    // integers next to the rounding midpoints of f32 (and f64): a conversion that rounds twice
+    // (integer → f64 → f32) differs from the single IEEE conversion exactly there
+    for k in 25..64u32 {
+        let base = 1i128 << k;
+        for step in [k - 24, k - 23, k - 53.min(k)] {
+            if step >= k {
+                continue;
+            }
+            let half = 1i128 << step;
+            for m in [base + half, base + 3 * half, (base << 1) - half] {
+                for d in [-1i128, 0, 1] {
+                    ints.insert(m + d);
+                    ints.insert(-(m + d));
+                }
+            }
+        }
+    }
     let mut values: Vec<Doc> = ints.iter().filter_map(|v| int_doc(*v)).collect();
     let n_ints = values.len();
+    // what only a non-canonical value source can present: a zero or a small non-negative number
+    // classified as "negative integer" (in range for every signed target)
+    let noncanonical = [Doc::Neg(0), Doc::Neg(1), Doc::Neg(100), Doc::Neg(127)];
     for f in [
         0.0f64,
         -0.0,
@@ -943,7 +971,8 @@ pub fn run_c05(tier: Tier) -> i32 {
                     let (sc, src) = work[i];
                     let run = scalar_runner(sc);
                     let mut bad = 0;
-                    for d in values.iter() {
+                    let extra: &[Doc] = if src == Src::Ov { &noncanonical } else { &[] };
+                    for d in values.iter().chain(extra.iter()) {
                         begin(&Script::keep_going());
                         let r = std::panic::catch_unwind(|| run(src, d));
                         let (events, _) = end();
@@ -1034,7 +1063,7 @@ pub fn run_c05(tier: Tier) -> i32 {
     rec.sample(json!({"target": "f32", "payload": "16777217", "expected": format!("{:?}", scalar_expect(Scalar::F32, &Doc::Int(16777217)))}));
     rec.finish(
         "model_checking",
-        "complete enumeration: 30 scalar targets × 2 value sources × every payload of the stated set (all integers of the range, all ±2^k and ±2^k±1, every target's MIN/MAX ±1, 26 floats incl. ±0, subnormals, f32::MAX neighbours, 2^24±1, 2^53±1, huge; all strings of 0..3 scalar values over {a, é, 😀}; 126 long strings of 15..257+ bytes whose multi-byte characters straddle every byte offset; every non-scalar kind). Each executed on the real deserialize with a recording error type. Oracle: independent i128/decimal-string specification — success ⇔ kind admissible ∧ value in domain; result equals the input (floats: the correctly rounded conversion computed from the exact decimal expansion); wrong kind ⇒ exactly one IncorrectValueKind whose accepted set is the admissible set and whose actual is the payload; domain violation ⇒ exactly one Unexpected whose numeric tokens contain the received number and the violated bound (or mention a zero / the string and its length / empty).",
+        "complete enumeration: 30 scalar targets × 2 value sources × every payload of the stated set (all integers of the range, all ±2^k and ±2^k±1, every target's MIN/MAX ±1, every integer next to an f32 / f64 rounding midpoint 2^k + 2^(k-24)·{1,3} ± 1 (double-rounding detectors), zero and small non-negative numbers classified as negative by a non-canonical source, 26 floats incl. ±0, subnormals, f32::MAX neighbours, 2^24±1, 2^53±1, huge; all strings of 0..3 scalar values over {a, é, 😀}; 126 long strings of 15..257+ bytes whose multi-byte characters straddle every byte offset; every non-scalar kind). Each executed on the real deserialize with a recording error type. Oracle: independent i128/decimal-string specification — success ⇔ kind admissible ∧ value in domain; result equals the input (floats: the correctly rounded conversion computed from the exact decimal expansion); wrong kind ⇒ exactly one IncorrectValueKind whose accepted set is the admissible set and whose actual is the payload; domain violation ⇒ exactly one Unexpected whose numeric tokens contain the received number and the violated bound (or mention a zero / the string and its length / empty).",
         &["float reference = Rust's correctly rounded decimal parser applied to the exact decimal expansion of the input"],
     )
 }
